@@ -70,6 +70,8 @@ def run(ctx):
                 if any(re.search(r'RwLock.*::is_locked$', c) for c in lib.shallow_calls(F, calls, owner=DB.path)):
                     by_lock += 1
                     lock_sets.append(bi)
+                # (the scan may be an iterator chain: then the fields it looks at are read inside its closures)
+                fields = set(fields) | lib.closure_fields(F, lib.shallow_calls(F, calls, owner=DB.path))
                 if '.IndexedChangeSet.used_trees' in fields and '.CommitQueue.commits' in fields:
                     by_queue += 1
             ctx.ob('1b deferred-when-reader-locked', 'K3-guard', DB.path, 'the deferral decision is true on a path that depends on RwLock::is_locked of the registered reader of the tree', by_lock >= 1, 'decision sites %d by-lock %d' % (len(sets), by_lock))
@@ -199,7 +201,7 @@ def run(ctx):
                 if '.BTreeChangeSet.changes' in fl or '.IndexedChangeSet.changes' in fl or '.IndexedChangeSet.node_changes' in fl:
                     # splitting a list is not consuming it: the log worker may take the node changes of the commit it owns and store
                     # the two halves back (the removals into the changeset that waits, the rest into the commit that goes on)
-                    if nm.endswith('mem::take') and lib.strip_closures(b.path) == 'db::DbInner::process_commits' and '.IndexedChangeSet.node_changes' in fl:
+                    if nm.endswith('mem::take') and lib.site_in(F, 'db::DbInner::process_commits', b.path) and '.IndexedChangeSet.node_changes' in fl:
                         stores = [x for x in b.normal_blocks() for st in b.blocks[x]['s'] if st['k'] == 'assign' and '.IndexedChangeSet.node_changes' in st['p'][1:]]
                         if len([x for x in stores if x in b.reaches(bi)]) >= 2:
                             continue
